@@ -9,7 +9,13 @@ M(ev) == [k \in 1..Len(ev.model) |-> [name |-> ev.model[k].name, kind |-> ev.mod
                                      act |-> ev.model[k].act]]
 AllKeys == {QNameX(k) : k \in OldKinds \cup NewKinds} \cup {"n1", "n2", "n3"}
 D(ev) == [k \in AllKeys |-> IF k \in DOMAIN ev.dict THEN ev.dict[k] ELSE "absent"]
+\* {adaptive: 1, exc, cls_ok, wts}: a Dense / Activation / Dense model converted with prefer_qadaptiveactivation (the
+\* Activation becomes a QAdaptiveActivation, which owns state variables); decided by the harness, recorded here
+AdaptiveVerdicts(ev) ==
+  IF ev.exc = 1 THEN <<"conversion_raises">>
+  ELSE (IF ev.cls_ok # 1 THEN <<"wrong_layer_class">> ELSE <<>>) \o (IF ev.wts # 1 THEN <<"weights_not_transferred">> ELSE <<>>)
 Verdicts(ev) ==
+  IF "adaptive" \in DOMAIN ev THEN AdaptiveVerdicts(ev) ELSE
   IF ev.exc = 1 THEN <<"conversion_raises">>
   ELSE LET want == DesignQuantizeX(D(ev), M(ev)) IN
        (IF Len(ev.res) # Len(want) \/ ev.topo # 1 THEN <<"topology_or_shapes_changed">>
